@@ -260,3 +260,152 @@ class ShimZ:
     def __exit__(self, *a):
         for m, k, v in self.saved:
             m.__dict__[k] = v
+
+
+# ------------------------------------------------------------------------------------------------------------------
+class I:
+    """symbolic integer (z3 Int); indexable through bounded enumeration (`__index__` decides value by value)"""
+    __slots__ = ("v", "lo", "hi")
+
+    def __init__(self, v, lo=None, hi=None):
+        self.v = v if z3.is_expr(v) else z3.IntVal(int(v))
+        self.lo, self.hi = lo, hi
+
+    @staticmethod
+    def lift(o):
+        if isinstance(o, I):
+            return o
+        if isinstance(o, (bool, _np.bool_, int, _np.integer)):
+            return I(z3.IntVal(int(o)))
+        return None
+
+    def _bin(self, o, f, rev=False):
+        if isinstance(o, _np.ndarray):
+            return NotImplemented
+        b = I.lift(o)
+        if b is None:
+            return NotImplemented
+        x, y = (b, self) if rev else (self, b)
+        return I(f(x.v, y.v))
+
+    def __add__(self, o): return self._bin(o, lambda a, b: a + b)
+    def __radd__(self, o): return self._bin(o, lambda a, b: a + b, True)
+    def __sub__(self, o): return self._bin(o, lambda a, b: a - b)
+    def __rsub__(self, o): return self._bin(o, lambda a, b: a - b, True)
+    def __mul__(self, o): return self._bin(o, lambda a, b: a * b)
+    def __rmul__(self, o): return self._bin(o, lambda a, b: a * b, True)
+    def __neg__(self): return I(-self.v)
+    def __abs__(self): return I(z3.If(self.v >= 0, self.v, -self.v))
+
+    def _cmp(self, o, f):
+        b = I.lift(o)
+        if b is None:
+            return NotImplemented
+        return _EX.decide(f(self.v, b.v))
+
+    def __lt__(self, o): return self._cmp(o, lambda a, b: a < b)
+    def __le__(self, o): return self._cmp(o, lambda a, b: a <= b)
+    def __gt__(self, o): return self._cmp(o, lambda a, b: a > b)
+    def __ge__(self, o): return self._cmp(o, lambda a, b: a >= b)
+    def __eq__(self, o): return self._cmp(o, lambda a, b: a == b)
+
+    def __ne__(self, o):
+        r = self.__eq__(o)
+        return r if r is NotImplemented else not r
+
+    def __hash__(self):
+        return hash(self.v.get_id())
+
+    def __bool__(self):
+        return _EX.decide(self.v != 0)
+
+    def __index__(self):
+        s = z3.simplify(self.v)
+        if z3.is_int_value(s):
+            return s.as_long()
+        lo = self.lo if self.lo is not None else -8
+        hi = self.hi if self.hi is not None else 64
+        for c in range(lo, hi + 1):
+            if _EX.decide(self.v == c):
+                return c
+        raise Infeasible()
+
+    __int__ = __index__
+
+    def __repr__(self):
+        return "I(%s)" % self.v
+
+
+class B:
+    """symbolic machine word (z3 BitVec) for the USET bit masks"""
+    __slots__ = ("v",)
+    W = 32
+
+    def __init__(self, v):
+        self.v = v if z3.is_expr(v) else z3.BitVecVal(int(v), B.W)
+
+    @staticmethod
+    def lift(o):
+        if isinstance(o, B):
+            return o
+        if isinstance(o, (int, _np.integer)):
+            return B(z3.BitVecVal(int(o), B.W))
+        return None
+
+    def _bin(self, o, f):
+        if isinstance(o, _np.ndarray):
+            return NotImplemented
+        b = B.lift(o)
+        return NotImplemented if b is None else B(f(self.v, b.v))
+
+    def __and__(self, o): return self._bin(o, lambda a, b: a & b)
+    __rand__ = __and__
+    def __or__(self, o): return self._bin(o, lambda a, b: a | b)
+    __ror__ = __or__
+
+    def __eq__(self, o):
+        b = B.lift(o)
+        return NotImplemented if b is None else _EX.decide(self.v == b.v)
+
+    def __ne__(self, o):
+        b = B.lift(o)
+        return NotImplemented if b is None else _EX.decide(self.v != b.v)
+
+    def __hash__(self):
+        return hash(self.v.get_id())
+
+    def __bool__(self):
+        return _EX.decide(self.v != 0)
+
+
+class ZArr(_np.ndarray):
+    """object-array subclass: astype(<numeric>) keeps the symbolic elements"""
+
+    def astype(self, dtype, *a, **k):
+        if self.dtype == object:
+            return self.copy()
+        return _np.ndarray.astype(self, dtype, *a, **k)
+
+
+def objarray(elems, shape=None):
+    a = _np.empty(len(elems), dtype=object)
+    for i, e in enumerate(elems):
+        a[i] = e
+    if shape:
+        a = a.reshape(shape)
+    return a.view(ZArr)
+
+
+def genuine_exception(exc):
+    """True iff the exception was raised by an explicit `raise` statement of the code under test (innermost frame inside a
+    pyyeti source file, on a `raise` line).  Anything else (TypeError from NumPy on object arrays, ...) is a limitation of the
+    symbolic shim and must be reported as undecided, never as a violation."""
+    import traceback, linecache
+    tb = traceback.extract_tb(exc.__traceback__)
+    if not tb:
+        return False
+    last = tb[-1]
+    if "/pyyeti/" not in last.filename or "/verif/" in last.filename:
+        return False
+    line = (last.line or linecache.getline(last.filename, last.lineno)).strip()
+    return line.startswith("raise")
